@@ -78,13 +78,11 @@ func genC03Big(r *Rng) *Scenario {
 
 // genC08Big: grid points far outside the enumerated grid.
 func genC08Big(r *Rng, i int) *Scenario {
-	fams := []int{}
-	for f, name := range c08Families {
-		if name != "mget" { // kvql evaluates IN per row over the whole list: quadratic
-			fams = append(fams, f)
-		}
-	}
+	fam := r.Intn(len(c08Families))
 	rr := pick(r, []int{4097, 20000, 65535, 65536, 65537, 70000})
+	if strings.HasSuffix(c08Families[fam], "mget") {
+		rr = pick(r, []int{1024, 1100, 2100}) // kvql evaluates IN per row over the whole list: quadratic
+	}
 	s := pick(r, []int{0, 1, 4095, 4096, 65535, 65536, rr - 1, rr, rr - 10})
 	if s < 0 {
 		s = 0
@@ -93,7 +91,7 @@ func genC08Big(r *Rng, i int) *Scenario {
 	if n < 0 {
 		n = 0
 	}
-	return c08Build(r, gridPt{fam: pick(r, fams), mode: i % 2, b: pick(r, bigBatches), r: rr, s: s, n: n})
+	return c08Build(r, gridPt{fam: fam, mode: i % 2, b: pick(r, bigBatches), r: rr, s: s, n: n})
 }
 
 func genC11Big(r *Rng) *Scenario {
@@ -220,10 +218,83 @@ func genC12Big(r *Rng) *Scenario {
 			rem.Pairs[(j*7)%len(rem.Pairs)] = HistPair{K: put.Pairs[1%len(put.Pairs)].K, KT: lit(put.Pairs[1%len(put.Pairs)].K)}
 		}
 	}
+	if r.Chance(0.35) && len(rem.Pairs) > 1000 {
+		// a key expression that fails far into the list: nothing at all may be removed
+		at := pick(r, []int{len(rem.Pairs) - 1, 1025, 4097, 4100, 65537, len(rem.Pairs) / 2})
+		if at >= len(rem.Pairs) {
+			at = len(rem.Pairs) - 1
+		}
+		rem.Pairs[at].Fail = "key"
+		rem.Pairs[at].KT = failingExpr(r)
+	}
 	sc.Hist = append(sc.Hist, rem)
-	applyHist(model, &rem)
+	if !rem.ExpectFail() {
+		applyHist(model, &rem)
+	}
 	probe(put.Pairs[0].K)
 	probe(put.Pairs[len(put.Pairs)-1].K)
 	sc.Clients = []Client{{Stmts: histStmts(sc.Hist)}}
 	return sc
+}
+
+// genC03Extra: statements from the other properties' generators, judged here
+// for row/batch agreement: key-pinning clauses over byte-level alphabets,
+// predicate trees over byte-keyed stores, and IN lists of more than a thousand
+// items (over small stores: kvql evaluates IN per row over the whole list).
+func genC03Extra(r *Rng, i int) *Scenario {
+	cfg := Config{Batch: pickBatch(r), Cache: r.Bool(), Alias: r.Chance(0.3), Lazy: r.Chance(0.3)}
+	switch r.Intn(4) {
+	case 0:
+		src := genC18Case(r, i, "quick", 0.7)
+		st := src.Clients[0].Stmts[len(src.Clients[0].Stmts)-1]
+		return &Scenario{Family: "pin", Cfg: cfg, Init: src.Init, Clients: []Client{{Stmts: []Stmt{{Text: st.Text}}}}}
+	case 1:
+		init := genStore(r, pick(r, []int{3, 8, 15, 26}), StoreBytes)
+		g := newPredGen(r, init)
+		text := pick(r, []string{"select * where ", "select key, value where ", "delete where ", "select key, upper(value), strlen(key) where "}) + topPred(g)
+		return &Scenario{Family: "pred-bytes", Cfg: cfg, Init: init, Clients: []Client{{Stmts: []Stmt{{Text: text}}}}}
+	default:
+		style := pick(r, []string{StoreInts, StoreText, StoreMixed})
+		init := genStore(r, pick(r, []int{5, 30, 60, 120}), style)
+		m := pick(r, []int{300, 1030, 1100, 2100, 4200})
+		lits := make([]string, m)
+		num := style == StoreInts && r.Bool()
+		for j := range lits {
+			if num {
+				lits[j] = fmt.Sprint(1000 + j)
+			} else {
+				lits[j] = quote(fmt.Sprintf("none%d", j))
+			}
+		}
+		// the values (or keys) that do occur are scattered over the whole list
+		byKey := r.Chance(0.3) && !num
+		for _, kv := range init {
+			if !r.Chance(0.6) {
+				continue
+			}
+			x := kv.V
+			if byKey {
+				x = kv.K
+			}
+			if num {
+				if _, ok := isDecimalInt(x); !ok {
+					continue
+				}
+				lits[r.Intn(m)] = x
+			} else if isQuotable(x) {
+				lits[r.Intn(m)] = quote(x)
+			}
+		}
+		list := "(" + strings.Join(lits, ", ") + ")"
+		var text string
+		switch {
+		case num:
+			text = "select key, int(value) as n where n in " + list
+		case byKey:
+			text = pick(r, []string{"select * where key in ", "delete where key in ", "select key where value != 'zz' & key in "}) + list
+		default:
+			text = pick(r, []string{"select key, value where value in ", "select key, upper(value) as u where value in ", "select key, value as v where v in ", "delete where value in "}) + list
+		}
+		return &Scenario{Family: "longlist", Cfg: cfg, Init: init, Clients: []Client{{Stmts: []Stmt{{Text: text}}}}}
+	}
 }
